@@ -10,6 +10,11 @@ NOTE = ("Trusted: rustc MIR construction/name resolution (nightly, mir-opt-level
         "ww_static/rules, identity of the registry and workspace copies of white-whale-std (measured each run).")
 
 CLAIMED = {
+    "C13": ("paired-update provenance (closure-resolved) + telescoping dependency rule + sibling operation-multiset agreement + ordering-domain walks",
+            "GLOBAL_WEIGHT and ADDRESS_WEIGHT are updated with one value in one direction and the history gets the saved weight at epoch+1; "
+            "expand's increment depends on the stored position total because close removes f(total); claim and the rewards query agree as "
+            "multisets of operations up to a frozen claim-only list; second claim in an epoch rejected before any effect; reward <= emission and "
+            "claimed <= funded gate every transfer; weight domain and max(computed, amount). Share-sum under snapshot placement: not decided.", "§4 C13"),
     "C16": ("MIR call-chain guard dominance (edge-cut reachability) over dispatch tables",
             "Every ExecuteMsg variant of the 14 dispatching contracts x every storage write / outgoing message reachable from "
             "its arm x the sender==authority comparison that must dominate it on the call chain; unprivileged variants must not "
